@@ -89,16 +89,18 @@ struct EraseF { R* r; template <class V> void operator()(V const& item) const { 
 struct SmrHP {
     std::unique_ptr<cds::gc::HP> gc;
     explicit SmrHP(const Program& p) { gc.reset(new cds::gc::HP((size_t)p.knob("hp_H", 16), (size_t)p.knob("hp_T", 8), (size_t)p.knob("hp_R", 0), p.knob("hp_classic") ? cds::gc::HP::scan_type::classic : cds::gc::HP::scan_type::inplace)); }
-    static void eager() { cds::gc::HP::force_dispose(); }
+    static void eager() { vh::EagerPass ep; cds::gc::HP::force_dispose(); }
+    static void detach() { vh::EagerPass ep; cds::threading::Manager::detachThread(); }   // detaching scans too
 };
-struct SmrDHP { std::unique_ptr<cds::gc::DHP> gc; explicit SmrDHP(const Program& p) { gc.reset(new cds::gc::DHP((size_t)p.knob("dhp_init", 16))); } static void eager() { cds::gc::DHP::force_dispose(); } };
-struct SmrNone { explicit SmrNone(const Program&) {} static void eager() {} };
+struct SmrDHP { std::unique_ptr<cds::gc::DHP> gc; explicit SmrDHP(const Program& p) { gc.reset(new cds::gc::DHP((size_t)p.knob("dhp_init", 16))); } static void eager() { vh::EagerPass ep; cds::gc::DHP::force_dispose(); } static void detach() { vh::EagerPass ep; cds::threading::Manager::detachThread(); } };
+struct SmrNone { explicit SmrNone(const Program&) {} static void eager() {} static void detach() { cds::threading::Manager::detachThread(); } };
 template <class RCU> struct SmrRCU {
     typedef cds::urcu::gc<RCU> gc_type; std::unique_ptr<gc_type> gc;
     template <class G> static G* mk(const Program& p, decltype(new G((size_t)1))* = nullptr) { return new G((size_t)p.knob("rcu_capacity", 8)); }
     template <class G> static G* mk(const Program&, ...) { return new G(); }
     explicit SmrRCU(const Program& p) { gc.reset(mk<gc_type>(p, nullptr)); }
     static void eager() { gc_type::synchronize(); }
+    static void detach() { cds::threading::Manager::detachThread(); }
 };
 template <class GC> struct SmrOf { typedef SmrNone type; };
 template <> struct SmrOf<cds::gc::HP> { typedef SmrHP type; };
@@ -393,7 +395,7 @@ template <class A> void run(Ctx& ctx) {
             ctx.run_clients(
                 [&](int) { cds::threading::Manager::attachThread(); },
                 [&](int i, const Op& op) { record(ctx, a, i, op); if (eager && dsim::decide(dsim::D_EAGER, eager)) { A::Smr::eager(); ctx.probe("F10_eager_reclaim"); } },
-                [&](int) { cds::threading::Manager::detachThread(); });
+                [&](int) { A::Smr::detach(); });
             // quiescent observation, part of the checked history
             std::set<long> present;
             for (int k = 1; k <= nkeys; k++) {
